@@ -230,6 +230,16 @@ func checkCacheStructure(r *Run, p *packages.Package, lm *LockModel) {
 							// callers of a private helper that does the insertion
 							guarded, offByOne = capacityGuardFor(p, lm, removesOnAllPaths, m.Decl, s, 0)
 						}
+						tblDecided, tblBounded, tblPaired, tblWhy := false, false, false, ""
+						if guarded == "" || true {
+							tblDecided, tblBounded, tblPaired, tblWhy = cachePutTable(p, store, removesOnAllPaths, m.Decl)
+						}
+						if guarded == "" && offByOne == "" && tblDecided && tblBounded {
+							guarded = "decision table over (key present, room left): no run stores a new key into a full cache without evicting first"
+						}
+						if tblDecided && !tblBounded && m.Decl.Name.IsExported() && offByOne == "" {
+							guarded = ""
+						}
 						if guarded != "" {
 							r.Pass("C16-R3-bounded", construct, s.Pos(), "%s", guarded)
 						} else if offByOne != "" {
@@ -261,8 +271,15 @@ func checkCacheStructure(r *Run, p *packages.Package, lm *LockModel) {
 								}
 							}
 						}
-						if hasPut && samePut {
+						if tblDecided && !tblPaired && m.Decl.Name.IsExported() {
+							// an entry point of the cache: both facts are free there, so what the table finds is reachable
+							r.Fail("C16-R4-pairing", fname+":insert↔size+1", s.Pos(), "the size statistic drifts from the number of entries: %s", tblWhy)
+						} else if hasPut && samePut {
 							r.Pass("C16-R4-pairing", fname+":insert↔size+1", s.Pos(), "stats.Put() in the same block as the insertion")
+						} else if tblDecided && tblPaired {
+							r.Pass("C16-R4-pairing", fname+":insert↔size+1", s.Pos(), "decision table over (key present, room left): the size statistic is bumped exactly on the runs that store a key that was not there")
+						} else if tblDecided && tblWhy != "" {
+							r.Fail("C16-R4-pairing", fname+":insert↔size+1", s.Pos(), "the size statistic drifts from the number of entries: %s", tblWhy)
 						} else {
 							r.Fail("C16-R4-pairing", fname+":insert↔size+1", s.Pos(), "a new key is stored without stats.Put() in the same block: the size statistic drifts from the number of entries")
 						}
@@ -489,30 +506,41 @@ func checkCapacityClamp(r *Run, p *packages.Package) {
 		r.Undecide("C16: NewSieve not found")
 		return
 	}
-	clamps := false
-	ast.Inspect(ns.Body, func(x ast.Node) bool {
-		if ifs, ok := x.(*ast.IfStmt); ok {
-			if be, ok := ast.Unparen(ifs.Cond).(*ast.BinaryExpr); ok && (be.Op == token.LEQ || be.Op == token.LSS) {
-				if id, ok := be.X.(*ast.Ident); ok {
-					if _, isParam := info.Uses[id].(*types.Var); isParam {
-						for _, st := range ifs.Body.List {
-							if as, ok := st.(*ast.AssignStmt); ok && len(as.Lhs) == 1 {
-								if l, ok := as.Lhs[0].(*ast.Ident); ok && info.Uses[l] == info.Uses[id] {
-									if tv, ok := info.Types[as.Rhs[0]]; ok && tv.Value != nil {
-										if v, exact := constantInt64(tv); exact && v >= 1 {
-											clamps = true
-										}
-									}
-								}
-							}
-						}
-					}
-				}
-			}
+	// the capacity the statistics are built with — NewStats(X) in the function that makes the Sieve literal, NewSieve itself
+	// or a helper — is at least 1 there
+	goodStats, badStats := 0, 0
+	sieveT := p.Types.Scope().Lookup("Sieve")
+	for _, fd := range decls {
+		if fd.Body == nil || sieveT == nil {
+			continue
 		}
-		return true
-	})
-	// the clamped value must be what reaches NewStats
+		ast.Inspect(fd.Body, func(x ast.Node) bool {
+			cl, ok := x.(*ast.CompositeLit)
+			if !ok {
+				return true
+			}
+			if nt := namedOf(info.TypeOf(cl)); nt == nil || nt.Origin().Obj() != sieveT {
+				return true
+			}
+			ast.Inspect(cl, func(y ast.Node) bool {
+				call, ok := y.(*ast.CallExpr)
+				if !ok || len(call.Args) != 1 {
+					return true
+				}
+				if fn := calleeOf(info, call); fn == nil || fn.Name() != "NewStats" {
+					return true
+				}
+				if good, _ := valueAtLeast(r, p, fd, call.Args[0], call, 1); good {
+					goodStats++
+				} else {
+					badStats++
+				}
+				return true
+			})
+			return true
+		})
+	}
+	clamps := goodStats > 0 && badStats == 0
 	if clamps {
 		r.Pass("C16-R3-capacity-clamp", "NewSieve", ns.Pos(), "a non-positive capacity is replaced by a positive constant before the cache is built (evict is reached only with a non-empty queue)")
 	} else {
@@ -1129,4 +1157,134 @@ func freshStatsLocal(p *packages.Package, fd *ast.FuncDecl, obj types.Object, co
 		return true
 	})
 	return defs == 1 && ok
+}
+
+// valueAtLeast: the integer expression e, used at node use inside fd, is known to be at least c: a constant; a variable
+// the conditions that control the use bound from below; a variable an earlier statement of an enclosing block clamps
+// (`if v <= 0 { v = 1 }`); or a local that holds the result of a helper of the package all of whose returns are at least c.
+func valueAtLeast(r *Run, p *packages.Package, fd *ast.FuncDecl, e ast.Expr, use ast.Node, c int64) (bool, string) {
+	info := p.TypesInfo
+	facts := boundFacts{p: p}
+	e = ast.Unparen(e)
+	if v, isConst := facts.constOf(e); isConst {
+		return v >= c, "the constant " + types.ExprString(e)
+	}
+	if call, isCall := e.(*ast.CallExpr); isCall {
+		if tv, has := info.Types[call.Fun]; has && tv.IsType() && len(call.Args) == 1 {
+			return valueAtLeast(r, p, fd, call.Args[0], use, c)
+		}
+		return callResultAtLeast(r, p, call, c)
+	}
+	cell, isCell := cellRefOf(info, e)
+	if !isCell {
+		return false, types.ExprString(e)
+	}
+	if facts.implies(controlConds(fd.Body, use), cell, c) {
+		return true, ""
+	}
+	// clamped by an earlier statement of an enclosing block, and not written between the clamp and the use
+	var stack []ast.Node
+	clamped := false
+	ast.Inspect(fd.Body, func(n ast.Node) bool {
+		if n == nil {
+			stack = stack[:len(stack)-1]
+			return false
+		}
+		stack = append(stack, n)
+		if n != use {
+			return !clamped
+		}
+		for i := 0; i+1 < len(stack); i++ {
+			b, ok := stack[i].(*ast.BlockStmt)
+			if !ok {
+				continue
+			}
+			for _, st := range b.List {
+				if st.Pos() <= stack[i+1].Pos() && stack[i+1].End() <= st.End() {
+					break
+				}
+				ifs, ok := st.(*ast.IfStmt)
+				if !ok || ifs.Else != nil || ifs.Init != nil || len(ifs.Body.List) != 1 {
+					continue
+				}
+				as, ok := ifs.Body.List[0].(*ast.AssignStmt)
+				if !ok || len(as.Lhs) != 1 || len(as.Rhs) != 1 || as.Tok != token.ASSIGN {
+					continue
+				}
+				if lc, ok := cellRefOf(info, as.Lhs[0]); !ok || lc != cell {
+					continue
+				}
+				if v, isConst := facts.constOf(as.Rhs[0]); !isConst || v < c {
+					continue
+				}
+				if facts.implies([]condLit{{Expr: ifs.Cond, Neg: true}}, cell, c) && !writtenBetween(info, fd.Body, cell, ifs.End(), use.Pos()) {
+					clamped = true
+				}
+			}
+		}
+		return false
+	})
+	if clamped {
+		return true, ""
+	}
+	if id, isId := e.(*ast.Ident); isId {
+		if def := resolveLocalCopy(info, fd.Body, id); def != ast.Expr(id) {
+			if call, isCall := ast.Unparen(def).(*ast.CallExpr); isCall {
+				return callResultAtLeast(r, p, call, c)
+			}
+			return valueAtLeast(r, p, fd, def, use, c)
+		}
+	}
+	return false, cell.String()
+}
+
+func callResultAtLeast(r *Run, p *packages.Package, call *ast.CallExpr, c int64) (bool, string) {
+	info := p.TypesInfo
+	fn := calleeOf(info, call)
+	if fn == nil || fn.Pkg() != p.Types {
+		return false, "a call that could not be followed"
+	}
+	gd := FuncDecls(p)[declKeyOf(fn)]
+	if gd == nil {
+		return false, "a call that could not be followed"
+	}
+	if sig, _ := fn.Type().(*types.Signature); sig == nil || sig.Results().Len() != 1 {
+		return false, "a call with several results"
+	}
+	return resultAtLeast(r, p, gd, 0, nil, c, nil, 0)
+}
+
+// writtenBetween: cell is assigned (or its address taken) at a position strictly between from and to.
+func writtenBetween(info *types.Info, body ast.Node, cell cellRef, from, to token.Pos) bool {
+	w := false
+	ast.Inspect(body, func(n ast.Node) bool {
+		if n == nil || w {
+			return false
+		}
+		if n.End() <= from || n.Pos() >= to {
+			return n.Pos() < to
+		}
+		switch x := n.(type) {
+		case *ast.AssignStmt:
+			if x.Pos() > from {
+				for _, l := range x.Lhs {
+					if lc, ok := cellRefOf(info, l); ok && lc == cell {
+						w = true
+					}
+				}
+			}
+		case *ast.IncDecStmt:
+			if lc, ok := cellRefOf(info, x.X); ok && lc == cell && x.Pos() > from {
+				w = true
+			}
+		case *ast.UnaryExpr:
+			if x.Op == token.AND && x.Pos() > from {
+				if lc, ok := cellRefOf(info, x.X); ok && lc == cell {
+					w = true
+				}
+			}
+		}
+		return true
+	})
+	return w
 }
